@@ -1,0 +1,12 @@
+//go:build verif
+
+package l4proxy
+
+// VerifHook, when set, is called at the linearization points marked with verifEv.
+var VerifHook func(point string, obj any, ok bool)
+
+func verifEv(point string, obj any, ok bool) {
+	if h := VerifHook; h != nil {
+		h(point, obj, ok)
+	}
+}
